@@ -104,6 +104,10 @@ struct FindFn {
 
 impl FindFn {
     fn find_regex_in_str(value: &str, regex: &ValueRegex, offset: usize) -> Option<usize> {
+        // `find_at` panics on an offset beyond the end of the string.
+        if offset > value.len() {
+            return None;
+        }
         regex.find_at(value, offset).map(|found| found.start())
     }
 
